@@ -11,6 +11,8 @@ import (
 	"github.com/glebziz/fs_db/internal/utils/ptr"
 )
 
+import "github.com/glebziz/fs_db/internal/verifhook"
+
 func (u *UseCase) GetKeys(ctx context.Context) ([]string, error) {
 	txId := model.GetTxId(ctx)
 	tx, err := u.txRepo.Get(ctx, txId)
@@ -34,6 +36,7 @@ func (u *UseCase) GetKeys(ctx context.Context) ([]string, error) {
 		return nil, fmt.Errorf("file repository get files: %w", err)
 	}
 
+	verifhook.At("getkeys.afterLookup")
 	keys := make([]string, 0, len(files))
 	for _, file := range files {
 		_, err = u.cfRepo.Get(ctx, file.ContentId)
